@@ -281,6 +281,18 @@ fn d45() -> Result<(), String> {
     if a < b { return Err("Int(5) < Float(1.0) in the derived order".to_owned()); }
     Ok(())
 }
+fn d49() -> Result<(), String> {
+    expect_lines(run_batch(T3, "SELECT k FROM t WHERE v IN (1.0, 7.5)", "a;1;1\nb;2;1\n"), &["k: 'a'"])
+}
+fn d50() -> Result<(), String> {
+    // year 4294969313 = 2^32 + 2017 must not silently become 2017
+    expect_lines(run_batch(T3, "SELECT make_timestamp(4294969313, 1, 2, 3, 4, 5, 0, 0) AS ts FROM t", "a;1;1\n"), &["ts: NULL"])
+}
+fn d51() -> Result<(), String> {
+    expect_no_panic(run_batch(T3, "SELECT '9999999999999999:0:0'::interval FROM t", "a;1;1\n"))?;
+    expect_no_panic(run_batch(T3, "SELECT '2562047788015:0:0'::interval + '2562047788015:0:0'::interval FROM t", "a;1;1\n"))?;
+    expect_no_panic(run_batch(T3, "SELECT make_timestamp(262142, 12, 31, 0, 0, 0, 0, 0) + '2562047788015:0:0'::interval FROM t", "a;1;1\n"))
+}
 fn d46() -> Result<(), String> {
     expect_parse_ok("CREATE TABLE t(line = SPLIT ';', line[1] => k TEXT);")?;
     expect_parse_ok("CREATE TABLE t(line = MATCH '(a)', line[1] => k TEXT);")
@@ -340,6 +352,9 @@ pub fn all() -> Vec<Witness> {
         w!("D43", &["C16"], "NaN breaks the order laws", d43),
         w!("D44", &["C16", "C08"], "0.0 == -0.0 but hash differently", d44),
         w!("D45", &["C16"], "INT vs REAL ordered by type in the derived order", d45),
+        w!("D49", &["C03"], "x IN (..) compares an INT with a REAL by type while = compares by value", d49),
+        w!("D50", &["C03", "C09"], "make_timestamp silently wraps out-of-range parts (as i32 / as u32)", d50),
+        w!("D51", &["C09"], "interval literals / interval and timestamp arithmetic out of chrono's range panic", d51),
         w!("D46", &["C20"], "SPLIT/MATCH mode words case-sensitive", d46),
         w!("D47", &["C20"], "cast type names case-sensitive", d47),
         w!("D48", &["C20"], "text ending in -- leaves a dangling token", d48),
